@@ -443,6 +443,16 @@ class Session:
 
     def _model_apply(self, op):
         m, k = self.model, op["op"]
+        rails_before = set(r for r in m.rails.values() if r)
+        try:
+            self._model_apply2(op)
+        finally:
+            if self.gen is not None:
+                dropped = rails_before - set(r for r in m.rails.values() if r)
+                self.gen.freed_rails.extend(sorted(dropped)[:2])
+
+    def _model_apply2(self, op):
+        m, k = self.model, op["op"]
         try:
             if k == "add_source":
                 m.add_source(op["comp"], op["group"], op["rail"])
